@@ -93,15 +93,22 @@ theorem performs_eq (i : Input) : performs i = tsApplies i := by
   cases i.tsaListed <;> cases i.option <;> cases b <;> rfl
 
 /-- step 5: the aggregation of the TSA chain's revocation results (proved in C05) -/
-theorem revFails_eq (rs : List C05.R) :
-    tsaRevocationFails rs = !(rs.all C05.R.good) := by
+theorem revFails_eq (n : Nat) (rs : List C05.R) :
+    tsaRevocationFails n rs = !(rs.length == n && rs.all C05.R.good) := by
   unfold tsaRevocationFails
-  by_cases hg : rs.all C05.R.good = true
-  · rw [(C05.final_ok_iff rs).2 hg, hg]; rfl
-  · have hne : (C05.revocationFinal rs).1 ≠ .ok := fun h => hg ((C05.final_ok_iff _).1 h)
-    have hf : rs.all C05.R.good = false := by simpa using hg
-    rw [hf]
-    cases hx : (C05.revocationFinal rs).1 <;> simp_all
+  by_cases hn : rs.length = n
+  · subst hn
+    rw [C05.final_complete]
+    simp only [beq_self_eq_true, Bool.true_and]
+    by_cases hg : rs.all C05.R.good = true
+    · rw [(C05.final_ok_iff rs).2 hg, hg]; rfl
+    · have hne : (C05.revocationFinal rs).1 ≠ .ok := fun h => hg ((C05.final_ok_iff _).1 h)
+      have hf : rs.all C05.R.good = false := by simpa using hg
+      rw [hf]
+      cases hx : (C05.revocationFinal rs).1 <;> simp_all
+  · rw [C05.final_incomplete n rs hn]
+    have : (rs.length == n) = false := by simpa using hn
+    simp [this]
 
 theorem pipeline_eq (i : Input) : pipeline i = !(tokenGood i) := by
   unfold pipeline tokenGood
@@ -111,9 +118,10 @@ theorem pipeline_eq (i : Input) : pipeline i = !(tokenGood i) := by
     simp only [rangeLoop_eq, revFails_eq]
     generalize (i.chain.all fun w => w.containsRange (k.genTime - accuracyNs k) (k.genTime + accuracyNs k)) = rg
     generalize (i.tsaRevocation.all C05.R.good) = rv
+    generalize (i.tsaRevocation.length == i.tsaChainLen) = rl
     cases k.parses <;> cases k.imprintMatches <;> cases i.tsaStoresLoad <;> cases i.tsaStoresNonEmpty <;>
       cases k.tsaRootListed <;> cases k.tsaCertOk <;> cases k.chainRulesOk <;> cases rg <;>
-      cases i.tsaRevocationError <;> cases rv <;> rfl
+      cases i.tsaRevocationError <;> cases rl <;> cases rv <;> rfl
 
 /-- closed form of `verifyTimestamp` -/
 theorem verifyTimestamp_eq (i : Input) :
@@ -185,7 +193,8 @@ def GoodCountersignature (i : Input) : Prop :=
     k.tsaCertOk = true ∧ k.chainRulesOk = true ∧            -- with a proper timestamping certificate chain,
     (∀ w ∈ i.chain,                                         -- whose time range lies inside every window,
         w.notBefore ≤ k.genTime - accuracyNs k ∧ k.genTime + accuracyNs k ≤ w.notAfter) ∧
-    i.tsaRevocationError = false ∧                          -- and whose chain is not revoked / unknown
+    i.tsaRevocationError = false ∧                          -- and whose chain is not revoked / unknown:
+    i.tsaRevocation.length = i.tsaChainLen ∧                -- one result per TSA certificate, each OK or non-revokable
     (∀ r ∈ i.tsaRevocation, r = .ok ∨ r = .nonRevokable)
 
 theorem tokenGood_iff (i : Input) : tokenGood i = true ↔ GoodCountersignature i := by
@@ -196,12 +205,12 @@ theorem tokenGood_iff (i : Input) : tokenGood i = true ↔ GoodCountersignature 
   | none => simp
   | some k =>
     simp only [Bool.and_eq_true, List.all_eq_true, containsRange_iff, Bool.not_eq_true', good_iff,
-      Option.some.injEq, exists_eq_left']
+      Option.some.injEq, exists_eq_left', beq_iff_eq]
     constructor
-    · rintro ⟨⟨⟨⟨⟨⟨⟨⟨⟨a, b⟩, c⟩, d⟩, e⟩, f⟩, g⟩, h⟩, j⟩, l⟩
-      exact ⟨a, b, c, d, e, f, g, h, j, l⟩
-    · rintro ⟨a, b, c, d, e, f, g, h, j, l⟩
-      exact ⟨⟨⟨⟨⟨⟨⟨⟨⟨a, b⟩, c⟩, d⟩, e⟩, f⟩, g⟩, h⟩, j⟩, l⟩
+    · rintro ⟨⟨⟨⟨⟨⟨⟨⟨⟨⟨a, b⟩, c⟩, d⟩, e⟩, f⟩, g⟩, h⟩, j⟩, l⟩, m⟩
+      exact ⟨a, b, c, d, e, f, g, h, j, l, m⟩
+    · rintro ⟨a, b, c, d, e, f, g, h, j, l, m⟩
+      exact ⟨⟨⟨⟨⟨⟨⟨⟨⟨⟨a, b⟩, c⟩, d⟩, e⟩, f⟩, g⟩, h⟩, j⟩, l⟩, m⟩
 
 /-- **x509_tsa_pass_sound**: when timestamp verification applies, a pass means a good countersignature -/
 theorem x509_tsa_pass_sound (i : Input) (hs : i.scheme = .x509) (hp : performs i = true)
@@ -385,10 +394,10 @@ private def goodToken : Token :=
 private def base : Input :=
   { now := 100, scheme := .x509, signingTime := 10, expiry := some 101, chain := [w 0 200, w 0 300],
     tsaListed := false, option := .unset, token := none, tsaStoresLoad := true, tsaStoresNonEmpty := true,
-    tsaRevocationError := false, tsaRevocation := [.ok, .ok] }
+    tsaRevocationError := false, tsaRevocation := [.ok, .ok], tsaChainLen := 2 }
 
 -- valid now, unexpired: both pass
-example : run base = { expiryFailed := false, authTsFailed := false } := by decide
+example : run base = { evaluated := true, expiryFailed := false, authTsFailed := false } := by decide
 -- expiry equal to the clock fails
 example : (run { base with expiry := some 100 }).expiryFailed = true := by decide
 -- an expired certificate fails without timestamping ...
@@ -405,10 +414,16 @@ example : (run { base with tsaListed := true, token := some goodToken, tsaRevoca
 example : (run { base with scheme := .signingAuthority, now := 1000, signingTime := 200 }).authTsFailed = false := by decide
 example : (run { base with scheme := .signingAuthority, now := 100, signingTime := 201 }).authTsFailed = true := by decide
 -- `Holds` rejects wrong observations
-example : Holds { base with expiry := some 100 } { expiryFailed := false, authTsFailed := false } = false := by decide
-example : Holds { base with chain := [w 0 200, w 0 99] } { expiryFailed := false, authTsFailed := false } = false := by decide
-example : Holds { base with tsaListed := true } { expiryFailed := false, authTsFailed := false } = false := by decide
-example : Holds { base with scheme := .signingAuthority, signingTime := 201 } { expiryFailed := false, authTsFailed := false } = false := by decide
+example : Holds { base with expiry := some 100 } { evaluated := true, expiryFailed := false, authTsFailed := false } = false := by decide
+example : Holds { base with chain := [w 0 200, w 0 99] } { evaluated := true, expiryFailed := false, authTsFailed := false } = false := by decide
+example : Holds { base with tsaListed := true } { evaluated := true, expiryFailed := false, authTsFailed := false } = false := by decide
+example : Holds { base with scheme := .signingAuthority, signingTime := 201 } { evaluated := true, expiryFailed := false, authTsFailed := false } = false := by decide
+-- a result vector that does not have one entry per TSA certificate fails, even if every entry is OK
+example : (run { base with tsaListed := true, token := some goodToken, tsaRevocation := [.ok] }).authTsFailed = true := by decide
+example : (run { base with tsaListed := true, token := some goodToken, tsaRevocation := [.ok, .ok, .ok] }).authTsFailed = true := by decide
+example : (run { base with tsaListed := true, token := some goodToken }).authTsFailed = false := by decide
+-- an outcome without the two results does not satisfy the property
+example : Holds base { evaluated := false, expiryFailed := false, authTsFailed := false } = false := by decide
 example : Holds base (run base) = true := by decide
 
 end NotationModel.C06
